@@ -105,6 +105,17 @@ impl CDriver {
             })
         }
     }
+    /// clockbound_open(path, NULL): Some(true) a context was returned, Some(false) NULL was returned,
+    /// None the driver did not answer (it died or hung).
+    pub fn open_without_err(&mut self, path: &str) -> Option<bool> {
+        let _ = writeln!(self.stdin, "o {}", path);
+        let _ = self.stdin.flush();
+        match self.line().as_str() {
+            "O ok" => Some(true),
+            "O null" => Some(false),
+            _ => None,
+        }
+    }
     pub fn now(&mut self) -> NowOut {
         let _ = writeln!(self.stdin, "N");
         let _ = self.stdin.flush();
